@@ -8,7 +8,7 @@
    ==/!= with a mapping that has a non-upper-case key or with a non-mapping (C17-F2), and
    move_to_end with a key that is not already upper-case (OrderedDict-specific, not an
    operation the property lists; it bypasses the folding). *)
-Require Import Lib.Base Model.Params Model.Sort Model.Caseless Proofs.SortPerm Proofs.CaselessProofs.
+Require Import Lib.Base Model.Params Model.Sort Model.Caseless Proofs.SortPerm Proofs.CaselessProofs Proofs.CaselessUpdateProofs.
 From Coq Require Import Sorting.Sorted Sorting.Permutation.
 
 (* results and states equal those of the reference map, for operation sequences of ANY length
@@ -51,6 +51,33 @@ Theorem C17_constructor_order : forall (V : Type) (ps : list (key * V)),
   keys (c_init ps) = dedup_first (map (fun kv => ckey (fst kv)) ps).
 Proof. exact c_init_order. Qed.
 Print Assumptions C17_constructor_order.
+
+(* update()/constructor/|= store pair after pair: the state after ANY prefix of the pairs is the state the
+   call would leave had it been given that prefix only (so a call that fails at a later, malformed pair
+   leaves what dict.update leaves: everything before it), and processing resumes from there *)
+Theorem C17_update_prefix : forall (V : Type) (n : nat) (ps : list (key * V)) (d : list (list N * V)),
+  c_update d ps = c_update (c_update d (firstn n ps)) (skipn n ps).
+Proof. intros V n ps d. apply c_update_firstn_skipn. Qed.
+Print Assumptions C17_update_prefix.
+
+Theorem C17_update_append : forall (V : Type) (ps qs : list (key * V)) (d : list (list N * V)),
+  c_update d (ps ++ qs) = c_update (c_update d ps) qs.
+Proof. intros V ps qs d. apply c_update_app. Qed.
+Print Assumptions C17_update_append.
+
+(* reads after an update: the last pair that spells a name (in any letter case, str or bytes) decides its
+   value; a name no pair spells keeps the value it had *)
+Theorem C17_update_last_wins : forall (V : Type) (ps qs : list (key * V)) (k : key) (v : V) (d : list (list N * V)),
+  (forall kv, In kv qs -> str_eqb (ckey k) (ckey (fst kv)) = false) ->
+  dict_get (ckey k) (c_update d (ps ++ (k, v) :: qs)) = Some v.
+Proof. intros V ps qs k v d. apply c_update_last_wins. Qed.
+Print Assumptions C17_update_last_wins.
+
+Theorem C17_update_untouched : forall (V : Type) (K : list N) (ps : list (key * V)) (d : list (list N * V)),
+  (forall kv, In kv ps -> str_eqb K (ckey (fst kv)) = false) ->
+  dict_get K (c_update d ps) = dict_get K d.
+Proof. intros V K ps d. apply c_update_untouched. Qed.
+Print Assumptions C17_update_untouched.
 
 (* one store / one delete *)
 Theorem C17_setitem_order : forall (V : Type) (k : key) (v : V) (d : list (list N * V)),
